@@ -1,15 +1,24 @@
 (* Correspondence + property checker for C16, evaluated on observations of the real
-   matchProtocolIDWithSemver.  Definitions only. *)
+   matchProtocolIDWithSemver and of two real services.  Definitions only. *)
 From Coq Require Import String List NArith Bool.
 From MevVerif Require Import lib.Bytes model.Semver.
 Import ListNotations.
 Open Scope N_scope.
 
-(* kind 0 (function level): observation 0 = (false, any error), 1 = (true, nil), 2 = panic.
+(* kind 0 (function level, arbitrary byte strings): observation 0 = (false, any error), 1 = (true, nil), 2 = panic.
+   kind 2 (function level, generated numeric identifiers): as kind 0; in addition the generator's own data:
+          [iname] the name it put into the identifier and [nums] = [M; m; p; HM; Hm; Hp] the numbers it spelled
+          into the identifier (M.m.p) and into the handler's version (HM.Hm.Hp).  The property is evaluated on
+          these numbers, not on the model's reading of the strings.
    kind 1 (routing, two real services): [descs] are the (name, version) pairs one node registered with
-   AddStreamHandlers, [incoming] the identifier a connected peer opened; observation 0 = no handler was
-   invoked (the stream could not be opened), k > 0 = the k-th registered handler was invoked, 99 = more than one. *)
-Record case := { id : N; kind : N; descs : list (bytes * bytes); incoming : bytes; hname : bytes; supported : bytes; obs : N }.
+          AddStreamHandlers (in this order), [incoming] the identifier a connected peer opened; observation
+          0 = the negotiation refused the identifier (no handler ran), k in 1..90 = the k-th registered handler
+          ran (and only it), 99 = more than one handler ran, 98 = the stream was opened but no handler ran within
+          the wait, 97 = the stream could not be opened for another reason than a refusal (timeout, reset).
+          97 and 98 are inconclusive observations of a slow machine: never a violation, re-run as mismatches.
+   kind 3 (concurrent negotiations in a child process): 0 = all verdicts right, 1 = a wrong verdict, 2 = crash. *)
+Record case := { id : N; kind : N; descs : list (bytes * bytes); incoming : bytes; hname : bytes; supported : bytes;
+                 iname : bytes; nums : list N; obs : N }.
 
 Definition agrees (v : verdict) (o : N) : bool :=
   match v with
@@ -18,29 +27,59 @@ Definition agrees (v : verdict) (o : N) : bool :=
   | Unspec => (o =? 0) || (o =? 1)
   end.
 
-(* routing: verdict of every registered descriptor on the incoming identifier *)
-Definition verdicts (c : case) : list verdict := map (fun d => match_id (incoming c) (fst d) (snd d)) (descs c).
-Definition is_match (v : verdict) : bool := match v with Match => true | _ => false end.
+(* --- kind 2: the RULE on the generator's numbers (independent of match_id) --- *)
+Definition rule_expect (c : case) : option N :=
+  match nums c with
+  | [M; m; p; HM; Hm; Hp] =>
+      if existsb (N.eqb slash) (iname c) then None
+      else if forallb (fun z => z <? two64) [M; m; p; HM; Hm; Hp]
+           then Some (if bytes_eqb (iname c) (hname c) && (HM =? M) && (m <=? Hm) then 1 else 0)
+           else Some 0                       (* a component that is no 64-bit number: a parse error, no match *)
+  | _ => None
+  end.
+(* the driver's strings spell exactly these numbers (read back with the model's parser) *)
+Definition vres_eqb (a b : vres) : bool :=
+  match a, b with
+  | VNum x y z, VNum x' y' z' => (x =? x') && (y =? y') && (z =? z')
+  | VErr, VErr => true
+  | VOther, VOther => true
+  | _, _ => false
+  end.
+Definition expect_parse (M m p : N) : vres :=
+  if (M <? two64) && (m <? two64) && (p <? two64) then VNum M m p else VErr.
+Definition spelling_ok (c : case) : bool :=
+  match nums c, split slash (incoming c) with
+  | [M; m; p; HM; Hm; Hp], [_; n; v] =>
+      bytes_eqb n (iname c) && vres_eqb (parse_version v) (expect_parse M m p)
+      && vres_eqb (parse_version (supported c)) (expect_parse HM Hm Hp)
+  | _, _ => false
+  end.
+
+(* --- kind 1: routing through the model of AddStreamHandlers / go-multistream --- *)
 Definition is_unspec (v : verdict) : bool := match v with Unspec => true | _ => false end.
-Fixpoint index_of_match (vs : list verdict) (k : N) : N :=
-  match vs with [] => 0 | v :: r => if is_match v then k else index_of_match r (k + 1) end.
-(* expected handler: specified only when no verdict is Unspec and at most one descriptor matches *)
+(* specified when no registered descriptor is judged by the lenient dialect *)
 Definition route_expect (c : case) : option N :=
-  let vs := verdicts c in
-  if existsb is_unspec vs then None
-  else match List.length (filter is_match vs) with
-       | O => Some 0
-       | S O => Some (index_of_match vs 1)
-       | _ => None
+  if existsb (fun d => is_unspec (match_id (incoming c) (fst d) (snd d))) (descs c) then None
+  else match route (descs c) (incoming c) with
+       | Some (k, _) => Some k
+       | None => Some 0
        end.
+Definition inconclusive (o : N) : bool := (o =? 97) || (o =? 98).
+
 Definition agrees_case (c : case) : bool :=
   if kind c =? 0 then agrees (match_id (incoming c) (hname c) (supported c)) (obs c)
-  else match route_expect c with Some k => obs c =? k | None => true end.
+  else if kind c =? 2 then agrees (match_id (incoming c) (hname c) (supported c)) (obs c) && spelling_ok c
+  else if kind c =? 1 then
+    match route_expect c with
+    | Some k => obs c =? k
+    | None => negb (inconclusive (obs c)) && negb (obs c =? 99)
+    end
+  else obs c =? 0.
 
 Definition mismatches (cs : list case) : list N := map id (filter (fun c => negb (agrees_case c)) cs).
 
-(* The property itself on the implementation's answer: never a panic; on the claimed domain
-   (verdict specified) the answer is the rule's. *)
+(* The property itself on the implementation's answer: never a panic; on the claimed domain the answer is the
+   rule's. *)
 Definition violation (c : case) : option string :=
   if kind c =? 0 then
     if obs c =? 2 then Some "panic"%string
@@ -48,18 +87,32 @@ Definition violation (c : case) : option string :=
          | Unspec => None
          | v => if agrees v (obs c) then None else Some "decision"%string
          end
+  else if kind c =? 2 then
+    if obs c =? 2 then Some "panic"%string
+    else match rule_expect c with
+         | Some k => if obs c =? k then None else Some "decision"%string
+         | None => None
+         end
+  else if kind c =? 1 then
+    (* an incoming stream is routed to a handler exactly when the rule matches that handler; two handlers for one
+       stream is wrong whatever the descriptors are *)
+    if obs c =? 99 then Some "routing"%string
+    else if inconclusive (obs c) then None
+    else match route_expect c with
+         | Some k => if obs c =? k then None else Some "routing"%string
+         | None => None
+         end
   else
-    (* an incoming stream is routed to a handler exactly when the rule matches that handler *)
-    match route_expect c with
-    | Some k => if obs c =? k then None else Some "routing"%string
-    | None => None
-    end.
+    if obs c =? 2 then Some "panic"%string
+    else if obs c =? 0 then None else Some "decision"%string.
 
 Definition violations (cs : list case) : list (N * string) :=
   flat_map (fun c => match violation c with Some k => [(id c, k)] | None => [] end) cs.
 
-(* cases on which the model's verdict is specified (the claimed domain) *)
+(* cases on which the verdict is specified (the claimed domain) *)
 Definition nontrivial (cs : list case) : list N :=
   map id (filter (fun c => if kind c =? 0
                            then match match_id (incoming c) (hname c) (supported c) with Unspec => false | _ => true end
-                           else match route_expect c with Some _ => true | None => false end) cs).
+                           else if kind c =? 2 then match rule_expect c with Some _ => true | None => false end
+                           else if kind c =? 1 then match route_expect c with Some _ => true | None => false end
+                           else true) cs).
